@@ -26,6 +26,12 @@ pub struct MockStream<const SECURE: bool> {
     peer: SocketAddr,
     /// number of upcoming `poll_write` calls that fail (shared with `PeerConn::write_faults`)
     write_faults: Arc<AtomicU32>,
+    /// the connection takes at most that many bytes per `poll_write` call (0 = no limit); shared with `PeerConn::write_chunk`
+    write_chunk: Arc<AtomicU32>,
+    /// while `write_chunk` is set: every other `poll_write` call returns `Pending` (and wakes itself); shared with `PeerConn::write_stall`
+    write_stall: Arc<AtomicBool>,
+    /// the previous `poll_write` call was answered with `Pending` by `write_stall`
+    stalled: bool,
 }
 
 impl<const SECURE: bool> AsyncRead for MockStream<SECURE> {
@@ -51,6 +57,19 @@ impl<const SECURE: bool> AsyncWrite for MockStream<SECURE> {
         {
             // transient: nothing is written, the connection stays open and usable
             return Poll::Ready(Err(io::Error::new(io::ErrorKind::Other, "mock transient write failure")));
+        }
+        // a connection whose send buffer has little room: a short count is what `AsyncWrite::poll_write`
+        // documents ("may write less than buf.len()"), `Pending` + wake-up what a full buffer does
+        let chunk = self.write_chunk.load(Ordering::SeqCst) as usize;
+        if chunk > 0 && !buf.is_empty() {
+            if self.write_stall.load(Ordering::SeqCst) && !self.stalled {
+                self.stalled = true;
+                cx.waker().wake_by_ref();
+                return Poll::Pending;
+            }
+            self.stalled = false;
+            let n = buf.len().min(chunk);
+            return Pin::new(&mut self.inner).poll_write(cx, &buf[..n]);
         }
         Pin::new(&mut self.inner).poll_write(cx, buf)
     }
@@ -106,6 +125,12 @@ pub struct PeerConn {
     /// send-fault plan of this connection: that many upcoming writes of ezk on it fail with a transient
     /// io::Error (nothing reaches the peer, the connection stays open); 0 = none
     pub write_faults: Arc<AtomicU32>,
+    /// room in the send buffer of ezk's end: each write call of ezk on this connection is accepted for at most
+    /// that many bytes (a short count, the connection stays open and takes the rest with the next call); 0 = no limit
+    pub write_chunk: Arc<AtomicU32>,
+    /// with `write_chunk` > 0: every accepted write call is preceded by one that finds the buffer full
+    /// (`Poll::Pending`, woken at once)
+    pub write_stall: Arc<AtomicBool>,
 }
 
 impl PeerConn {
@@ -143,6 +168,8 @@ fn make_pair<const SECURE: bool>(
     let eof = Arc::new(AtomicBool::new(false));
     let eof_at: Arc<Mutex<Option<u64>>> = Default::default();
     let write_faults: Arc<AtomicU32> = Default::default();
+    let write_chunk: Arc<AtomicU32> = Default::default();
+    let write_stall: Arc<AtomicBool> = Default::default();
     {
         let received = received.clone();
         let eof = eof.clone();
@@ -170,6 +197,12 @@ fn make_pair<const SECURE: bool>(
                             if m.header("content-length").is_none() || total > pending.len() {
                                 break;
                             }
+                            // the announced body has not arrived completely yet (`WireMsg::body` is then all there is)
+                            if let Some(Ok(n)) = m.header("content-length").map(|v| v.trim().parse::<usize>()) {
+                                if n > m.raw_body_len {
+                                    break;
+                                }
+                            }
                             let msg: Vec<u8> = pending.drain(..total).collect();
                             log.sent.lock().push(Sent {
                                 t_ms: clock.now_ms(),
@@ -189,6 +222,9 @@ fn make_pair<const SECURE: bool>(
             local: ezk_addr,
             peer: peer_addr,
             write_faults: write_faults.clone(),
+            write_chunk: write_chunk.clone(),
+            write_stall: write_stall.clone(),
+            stalled: false,
         },
         PeerConn {
             id,
@@ -200,6 +236,8 @@ fn make_pair<const SECURE: bool>(
             eof,
             eof_at,
             write_faults,
+            write_chunk,
+            write_stall,
         },
     )
 }
@@ -210,6 +248,9 @@ pub struct FactoryProbe {
     pub connects: Arc<Mutex<Vec<(u64, SocketAddr)>>>,
     pub fail: Arc<AtomicBool>,
     pub conns: Arc<Mutex<Vec<PeerConn>>>,
+    /// `PeerConn::write_chunk` / `write_stall` every connection created from now on starts with (0 / false = no limit)
+    pub write_chunk: Arc<AtomicU32>,
+    pub write_stall: Arc<AtomicBool>,
 }
 
 pub struct MockFactory<const SECURE: bool> {
@@ -224,6 +265,8 @@ pub fn mock_factory<const SECURE: bool>(clock: Clock, log: &WireLog) -> (MockFac
         connects: Default::default(),
         fail: Arc::new(AtomicBool::new(false)),
         conns: Default::default(),
+        write_chunk: Default::default(),
+        write_stall: Default::default(),
     };
     (
         MockFactory {
@@ -272,6 +315,8 @@ impl<const SECURE: bool> MockFactory<SECURE> {
             format!("[fd00::1]:{port}").parse().unwrap()
         };
         let (ezk_end, peer_end) = make_pair::<SECURE>(self.clock, &self.log, local, remote);
+        peer_end.write_chunk.store(self.probe.write_chunk.load(Ordering::SeqCst), Ordering::SeqCst);
+        peer_end.write_stall.store(self.probe.write_stall.load(Ordering::SeqCst), Ordering::SeqCst);
         self.probe.conns.lock().push(peer_end);
         Ok(ezk_end)
     }
